@@ -33,7 +33,8 @@ ASSUMPTIONS = ASSUME_BASE + [
     "attributes other than id/data_type/doc_path are built-in ones (#[doc]); an attribute rustc does not know is left in place by the macro and "
     "rejected by rustc, which is not run on generated declarations",
     "a raw tag (RawTag variant / get_raw_tag) is only used with ids the specification does not declare: a RawTag carrying a declared non-binary id "
-    "makes the writer panic ('Bad specification implementation'), see the report in notes",
+    "makes the writer panic ('Bad specification implementation', tag_writer.rs buffer_tag/write_explicit_sized): observed by hand, e.g. "
+    "TagWriter::write(&S::RawTag(0x81, vec![])) with 0x81 a declared master; not part of the generated cases",
 ]
 EXHAUSTIVE = {
     "quick": "all attribute lists of length <= 3 over {id 82, id 83, Master, UnsignedInt, unknown type, path Root, path Root/(-), other} for the second "
